@@ -160,22 +160,22 @@ func runC01(ctx *Ctx) *Report {
 		nb = 40
 	}
 	for k := 0; k < nb; k++ {
-		mb = append(mb, mblockCase{Kind: "c01-massive-blocks", Roots: 2 + k%4, Lines: []int{90, 200, 700, 1500}[k%4] + ctx.Rng.Intn(40), Seed: int64(ctx.Rng.Int31()), FromRoot: k%5 == 4, Custom: k%2 == 1})
+		// few very large roots, and many large roots (more than there are workers: several are printed at the same time)
+		mb = append(mb, mblockCase{Kind: "c01-massive-blocks", Roots: []int{2, 12, 3, 24, 5, 40}[k%6], Lines: []int{700, 200, 1500, 150, 400, 120}[k%6] + ctx.Rng.Intn(40), Seed: int64(ctx.Rng.Int31()), Custom: k%2 == 1})
 	}
 	for _, c := range mb {
-		rep.Record(c, fmt.Sprintf("mblocks:%d:%d:%v:%v", c.Roots, c.Lines, c.FromRoot, c.Custom), true, runMassiveBlocks(c))
-		rep.Count("massive text output of " + itoa(c.Roots) + " large roots" + ifs(c.FromRoot, " (one From-Root call per root is not possible: From-Markdown)", ""))
+		rep.Record(c, fmt.Sprintf("mblocks:%d:%d:%v", c.Roots, c.Lines, c.Custom), true, runMassiveBlocks(c))
+		rep.Count("massive text output of " + itoa(c.Roots) + " large roots")
 	}
 	return rep
 }
 
 type mblockCase struct {
-	Kind     string `json:"kind"`
-	Roots    int    `json:"roots"`
-	Lines    int    `json:"lines_per_root"`
-	Seed     int64  `json:"seed"`
-	FromRoot bool   `json:"from_root,omitempty"`
-	Custom   bool   `json:"custom_branch_strings,omitempty"`
+	Kind   string `json:"kind"`
+	Roots  int    `json:"roots"`
+	Lines  int    `json:"lines_per_root"`
+	Seed   int64  `json:"seed"`
+	Custom bool   `json:"custom_branch_strings,omitempty"`
 }
 
 func init() {
